@@ -117,7 +117,6 @@ theorem tail64_total (p : Nat) (m v : Int) (n : Bool) (fo : Option Str) (hv : fi
     · left; rfl
     · right
       refine ⟨_, rfl, ?_⟩
-      simp only
       split <;> exact wrap64_fits _
 
 theorem fromStr64_total (p : Nat) (m : Int) (s : Str) :
